@@ -250,6 +250,37 @@ Theorem C07_single_page_targets : forall ps, plan_fine ps ->
   follows (ps_faults ps) None [] (fst (fetch_one MSession None ps)) = true.
 Proof. exact single_targets. Qed.
 
+(* the acceptor of the single-page cases: accepted => the property sentence for a resumed page
+   (every request carries the caller's state), the model's result and number of attempts, and
+   nodes that obey the plan rules; the model's own run is accepted *)
+Theorem C07_accept_single_sound : forall st ps obs ok nodes_,
+  accept_single st ps obs ok nodes_ = true ->
+  prop_single_ok st ok = true /\ obs = single_result (snd (single_run st ps)) /\
+  List.length ok = List.length (fst (fetch_one MSession None ps)) /\
+  follows (ps_faults ps) None [] nodes_ = true.
+Proof. exact accept_single_sound. Qed.
+
+Theorem C07_accept_single_complete : forall st ps, plan_fine ps ->
+  accept_single st ps (single_result (snd (single_run st ps))) (fst (single_run st ps))
+                (fst (fetch_one MSession None ps)) = true.
+Proof. exact accept_single_complete. Qed.
+
+(* early drop of a read whose script holds a client timeout: the same tolerance as for full
+   reads, sound in the same sense *)
+Theorem C07_drop_timeout_sound : forall m nodes script cnt oi ok,
+  accept_drop_timeout m script cnt oi ok = true -> plans_ok nodes script = true ->
+  exists sc, In sc (early_timeouts script) /\ plans_ok nodes sc = true /\
+    script_pages sc = script_pages script /\
+    (known_ignored m (List.length nodes) sc = false ->
+       prop_drop_ok m (List.length nodes) sc cnt oi ok = true).
+Proof. exact drop_timeout_sound. Qed.
+
+(* how a page request ends, in closed form (positions and counts, no loop): it ends at the first
+   fault that is terminal by itself or that asks for another target when the spare targets are
+   used up; otherwise the response arrives.  Equal to the recursive [spec_page] used above. *)
+Theorem C07_page_outcome_closed_form : forall m n ps, spec_page m n ps = spec_page_closed m n ps.
+Proof. exact spec_page_closed_eq. Qed.
+
 (* ---- non-vacuity: concrete scripts and schedules ---------------------------------------- *)
 Definition ex_script : list pscript :=
   [ mk_ps [0; 1; 2] [FErr 4097 DSame] (RRows [1; 2] (Some [170]));
@@ -447,6 +478,49 @@ Example C07_ex_single :
   single_expected 1 (mk_ps [0] [FErr 4098 DNext] (RRows [5] None)) = PoErr 4098.
 Proof. repeat split; vm_compute; reflexivity. Qed.
 
+Definition ex_single_ps := mk_ps [0; 1] [FErr 4097 DSame; FErr 4098 DNext] (RRows [5] (Some [1])).
+Example C07_ex_accept_single :
+  accept_single (Some [9]) ex_single_ps (SRows [5] (Some [1]))
+    [(0%nat, Some [9]); (0%nat, Some [9]); (0%nat, Some [9])] [1; 1; 0] = true /\
+  (* a request without the caller's state, a lost row, a wrong next state, one attempt less,
+     a RetrySameTarget that moved *)
+  accept_single (Some [9]) ex_single_ps (SRows [5] (Some [1]))
+    [(0%nat, Some [9]); (0%nat, None); (0%nat, Some [9])] [1; 1; 0] = false /\
+  accept_single (Some [9]) ex_single_ps (SRows [] (Some [1]))
+    [(0%nat, Some [9]); (0%nat, Some [9]); (0%nat, Some [9])] [1; 1; 0] = false /\
+  accept_single (Some [9]) ex_single_ps (SRows [5] None)
+    [(0%nat, Some [9]); (0%nat, Some [9]); (0%nat, Some [9])] [1; 1; 0] = false /\
+  accept_single (Some [9]) ex_single_ps (SRows [5] (Some [1]))
+    [(0%nat, Some [9]); (0%nat, Some [9])] [1; 1] = false /\
+  accept_single (Some [9]) ex_single_ps (SRows [5] (Some [1]))
+    [(0%nat, Some [9]); (0%nat, Some [9]); (0%nat, Some [9])] [1; 0; 1] = false /\
+  prop_single_ok (Some [9]) [(0%nat, Some [9]); (0%nat, Some [9])] = true /\
+  prop_single_ok (Some [9]) [(0%nat, Some [9]); (0%nat, None)] = false /\
+  prop_single_ok None [(0%nat, Some [])] = false.
+Proof. repeat split; vm_compute; reflexivity. Qed.
+
+Example C07_ex_closed_form :
+  (* terminal fault first *)
+  attempts_closed [FErr 1 DSame; FErr 2 DDont; FErr 3 DNext] 0 0 RVoid = PoErr 2 /\
+  (* the second next-target decision finds no spare target *)
+  attempts_closed [FErr 1 DNext; FErr 2 DSame; FConnFail; FTimeout] 1 0 RVoid = PoErr e_pool /\
+  attempts_closed [FErr 1 DNext; FErr 2 DSame; FConnFail; FTimeout] 2 0 RVoid = PoErr e_timeout /\
+  attempts_closed [FErr 1 DNext; FUnprep; FErr 2 DSame] 1 0 RVoid = PoResp RVoid /\
+  attempts_closed [FErr 7 DIgnore] 3 0 RVoid = PoIgnored 7 /\
+  spec_page_closed MSession 0 ex_single_ps = PoErr e_empty_plan /\
+  spec_page_closed MSession 1 ex_single_ps = PoErr 4098 /\
+  spec_page_closed MConn 2 ex_single_ps = PoErr 4097.
+Proof. repeat split; vm_compute; reflexivity. Qed.
+
+Example C07_ex_drop_timeout :
+  (* the caller takes 2 items of a read whose page 1 is scripted to time out on its second
+     attempt; a stall makes the timeout strike the first attempt *)
+  accept_drop MSession ex_t_script 2 [IRow 1; IErr 65536] [(0%nat, None); (1%nat, Some [7])] = false /\
+  accept_drop_timeout MSession ex_t_script 2 [IRow 1; IErr 65536] [(0%nat, None); (1%nat, Some [7])] = true /\
+  accept_drop_timeout MSession ex_t_script 2 [IRow 1; IEnd] [(0%nat, None); (1%nat, Some [7])] = false /\
+  accept_drop_timeout MSession ex_t_script 2 [IErr 65536; IEnd] [(0%nat, None); (1%nat, Some [7])] = false.
+Proof. repeat split; vm_compute; reflexivity. Qed.
+
 Print Assumptions C07_rows.
 Print Assumptions C07_rows_safety.
 Print Assumptions C07_ends.
@@ -474,3 +548,7 @@ Print Assumptions C07_coordinator_stability.
 Print Assumptions C07_seq_targets_are_requests.
 Print Assumptions C07_single_page_outcome.
 Print Assumptions C07_single_page_targets.
+Print Assumptions C07_accept_single_sound.
+Print Assumptions C07_accept_single_complete.
+Print Assumptions C07_drop_timeout_sound.
+Print Assumptions C07_page_outcome_closed_form.
